@@ -16,6 +16,7 @@
 // and at interior offsets) and under write faults: "@status=0" in the .d0c snapshot implies the
 // .d0t snapshot is the complete expected text; a refused line leaves no event record; never a crash.
 #include "configs.h"
+#include <bxdecay0/bb_utils.h>
 #include "simfs.h"
 #include "simrandom.h"
 #include <bxdecay0/event_reader.h>
@@ -166,7 +167,7 @@ std::map<std::string, std::string> parse_kv(const std::string & d0c)
   return m;
 }
 
-struct RunResult { int rc = -99; std::string d0t, d0c; bool d0t_exists = false, d0c_exists = false; i64 crash_points = 0; std::string kill_violation; };
+struct RunResult { int rc = -99; std::string diag; std::string d0t, d0c; bool d0t_exists = false, d0c_exists = false; i64 crash_points = 0; std::string kill_violation; };
 
 /// files left behind on the same basename by an earlier, complete run (empty strings: none)
 struct Stale { std::string d0t, d0c; bool any() const { return !d0c.empty(); } };
@@ -199,7 +200,14 @@ RunResult run_program(const std::vector<std::string> & tokens, const std::string
                           + std::to_string(fs::get(t_path).size()) + " of " + std::to_string(expect_d0t->size()) + " bytes)";
   });
   fs::begin_op();
-  rr.rc = bxdecay0_run_main((int)store.size(), argv.data());
+  {
+    // what the program says on its diagnostic streams (the reason of a refusal)
+    std::ostringstream cap;
+    std::streambuf * oe = std::cerr.rdbuf(cap.rdbuf()); std::streambuf * ol = std::clog.rdbuf(cap.rdbuf());
+    rr.rc = bxdecay0_run_main((int)store.size(), argv.data());
+    std::cerr.rdbuf(oe); std::clog.rdbuf(ol);
+    rr.diag = cap.str();
+  }
   fs::set_crash_observer(nullptr);
   rr.crash_points = fs::stats().crash_points - cp0;
   rr.d0t_exists = fs::exists(t_path); rr.d0c_exists = fs::exists(c_path);
@@ -311,7 +319,18 @@ Outcome run_run(const Plan & plan, const RunCtx & ctx)
     size_t n = s.n >= 0 ? (size_t)s.n : 1;
     if (rr.d0t != ref.d0t) {
       bool untouched2 = stale.any() && rr.d0t == stale.d0t && rr.d0c == stale.d0c;
-      if ((nrec == 0 && !has_marker(rr.d0c)) || untouched2) { out.ctr["diag_program_refuses_what_the_api_accepts"]++; outcome = "over-refused"; }
+      if ((nrec == 0 && !has_marker(rr.d0c)) || untouched2) {
+        out.ctr["diag_program_refuses_what_the_api_accepts"]++; outcome = "over-refused";
+        // tolerated for exactly one reason: the library API resolves a nuclide name by prefix, the program insists on a name
+        // of the published list. Any other run that the API reference completes and the program abandons (cannot open a
+        // file, refuses a valid option, ...) is an incomplete run without a cause.
+        const std::set<std::string> & published = s.cat == 1 ? bxdecay0::dbd_isotopes() : bxdecay0::background_isotopes();
+        if (published.count(s.nuc))
+          violation("valid-line-not-run", "valid-line-not-run " + clclass,
+                    "the program wrote no event for a command line that the library API completes and whose nuclide is in the published list; exit status "
+                        + std::to_string(rr.rc) + "; it said: " + rr.diag.substr(0, 200));
+        if (getenv("BXSIM_DIAG")) { std::string m = rr.diag; size_t e = m.find("error"); if (e != std::string::npos) m = m.substr(e); for (auto & ch : m) if (ch == '\n' || ch == '|' || ch == ';' || ch == '=') ch = ' '; out.ctr["overrefused: " + m.substr(0, 110)]++; }
+      }
       else violation("event-file-differs-from-api", "event-file-differs-from-api " + clclass,
                      "the .d0t file (" + std::to_string(nrec) + " records, " + std::to_string(rr.d0t.size()) + " bytes) differs from what the library API yields for the same seed and settings ("
                          + std::to_string(n) + " records, " + std::to_string(ref.d0t.size()) + " bytes)");
@@ -439,7 +458,7 @@ Plan gen_run(u64 seed, u64 idx, const RunCtx & ctx)
   else if (f == 2) { Op w; w.k = "wfault"; u64 k = r.below(5); w.a = {(i64)(2 + k), k == 0 ? r.range(0, 6000) : r.range(0, 60)}; p.ops.push_back(w); }
   if (r.chance(0.5)) { Op o; o.k = "cuts"; o.a = {r.range(1, 3)}; p.ops.push_back(o); }
   if (r.chance(0.5)) { Op o; o.k = "epoch"; o.a = {(i64)r.below(4000000000ULL)}; p.ops.push_back(o); }
-  if (r.chance(0.3)) { Op o; o.k = "prior"; o.a = {(i64)r.below(1000), r.range(1, 6)}; o.s = {r.pick(std::vector<std::string>{"Co60", "K40", "Cs137+Ba137m", "Tl208"})}; p.ops.push_back(o); }
+  if (r.chance(0.3)) { Op o; o.k = "prior"; o.a = {(i64)r.below(1000), r.chance(0.3) ? r.range(20, 90) : r.range(1, 6)}; /* often longer than the run that follows */ o.s = {r.pick(std::vector<std::string>{"Co60", "K40", "Cs137+Ba137m", "Tl208"})}; p.ops.push_back(o); }
   if (r.chance(0.4)) { Op o; o.k = "rerun"; o.a = {(i64)r.below(4000000000ULL), r.chance(0.5) ? r.range(1, 50) : 0}; p.ops.push_back(o); }
   return p;
 }
